@@ -227,9 +227,9 @@ func exprFixed() [][]any {
 }
 
 func runExpr(o *hlib.Out, r *hlib.Rand, cfg hlib.Config) {
-	n := 1500
+	n := 1200
 	if cfg.Thorough() {
-		n = 40000
+		n = 12000
 	}
 	ps := exprFixed()
 	for i := 0; i < n; i++ {
@@ -340,6 +340,14 @@ func runTrees(o *hlib.Out, r *hlib.Rand, cfg hlib.Config) {
 		f := probeFormat(s.data)
 		if os.Getenv("VERIF_DEBUG") != "" {
 			fmt.Fprintf(os.Stderr, "  probed %q in %v\n", f, time.Since(t0))
+		}
+		if f == "" {
+			// not probeable (bare frames, sub-formats): try the format named like the directory
+			if vs, _ := evalAll(hex.EncodeToString(s.data), fmt.Sprintf("from_hex | decode(%q) | format", dir)); len(vs) == 1 {
+				if fs, ok := vs[0].(string); ok {
+					f = fs
+				}
+			}
 		}
 		if f == "" {
 			o.Stat("files_not_probed", 1)
